@@ -58,12 +58,28 @@ def build_harness():
     return out
 
 
-def run_harness(sub, infile, outfile, timeout=600, extra_env=None, args=()):
+def build_race_harness():
+    """The same harness built with the race detector (needs the go1.26.8 toolchain: the default go has no race runtime)."""
+    src = os.path.join(BUILD, "harness-src")
+    out = os.path.join(BUILD, "harness-race")
+    go = shutil.which("go1.26.8") or shutil.which("go1.26")
+    if not go:
+        raise MachineryError("no Go toolchain with a race runtime (go1.26.8) on PATH")
+    env = go_env()
+    env["CGO_ENABLED"] = "1"
+    p = subprocess.run([go, "build", "-race", "-tags", "verif", "-o", out, "."], cwd=src, env=env,
+                       stdout=subprocess.PIPE, stderr=subprocess.STDOUT, text=True)
+    if p.returncode != 0:
+        raise MachineryError("race harness build failed:\n" + p.stdout)
+    return out
+
+
+def run_harness(sub, infile, outfile, timeout=600, extra_env=None, args=(), binary="harness"):
     env = go_env()
     if extra_env:
         env.update(extra_env)
     with open(infile, "rb") as fi, open(outfile, "wb") as fo:
-        p = subprocess.run([os.path.join(BUILD, "harness"), sub, *args], stdin=fi, stdout=fo,
+        p = subprocess.run([os.path.join(BUILD, binary), sub, *args], stdin=fi, stdout=fo,
                            stderr=subprocess.PIPE, env=env, timeout=timeout)
     if p.returncode != 0:
         raise MachineryError("harness %s failed (exit %d): %s" % (sub, p.returncode, p.stderr.decode()[-2000:]))
